@@ -113,6 +113,7 @@ class Generator:
         self.unit = unit
         self._broadcast = None
         self._reach_n = 0
+        self._vars = {}
         self._process_file(os.path.join(self.cdir, unit + ".rs"), g)
         for rel, sf in self._files.items():
             g.sources[rel] = hashlib.sha256(sf.src.encode()).hexdigest()
@@ -132,6 +133,12 @@ class Generator:
             if not m:
                 raise AnchorLost("bad directive: %s" % s)
             cmd, rest = m.group(1), m.group(2)
+            if cmd == "set":
+                k, _, v = rest.partition(" ")
+                self._vars[k] = v.strip()
+                i += 1
+                continue
+            rest = re.sub(r"\$(\w+)", lambda mm: self._vars.get(mm.group(1), ""), rest)
             # collect continuation lines
             cont = []
             j = i + 1
@@ -209,6 +216,8 @@ class Generator:
             text = re.sub(r"\(\s*(?!pub\b)", "(pub ", text, count=1) if "(" in text else text
         text = self._make_pub(text)
         text = self._apply_type_table(text, rules)
+        if not any(k.split("::")[-1] == "Default" for k in kept):
+            text = re.sub(r"#\[default\]\s*", "", text)
         for c in cont:
             text = self._apply_cont_rewrite(c, text, rules, it)
         lo = len(g.lines) + 1
@@ -467,7 +476,12 @@ class Generator:
         old = old.replace("\\n", "\n")
         new = new.replace("\\n", "\n")
         n = self._count_ws(text, old)
-        if n == 0 or (kind == "rewrite" and n != 1):
+        if n == 0:
+            # the named construct is not in the current source: nothing to abstract (if it was only
+            # re-spelled, the verifier's front end rejects the unit -> undecided, never an alarm)
+            rules.append("R3 anchor absent, rewrite skipped: `%s`" % old.strip()[:120])
+            return text
+        if kind == "rewrite" and n != 1:
             raise AnchorLost("rewrite anchor occurs %d times in %s: %s" % (n, it.name, old[:60]))
         rules.append("R3 abstracted expression `%s` -> `%s`" % (old.strip()[:120], new.strip()[:120]))
         return self._replace_ws(text, old, new)
